@@ -1,9 +1,186 @@
-(* C22 statements (in progress) *)
+(* C22 — rendezvous ordering is insertion-independent and minimally disruptive.
+   Statements only; every proof is `exact <lemma from Proof/C22.v>`.
+
+   The score function (rendezvous.go:143) is a parameter: any function from (node, key) into a
+   type whose `<` is a strict total order (float64 without NaN, -0 identified with +0).
+   `tie_free score k ns` — distinct nodes of ns score differently on k — is the stated
+   hypothesis wherever uniqueness of the order is claimed; the driver evaluates it on every
+   explored (node set, key) and reports the count. *)
 From Coq Require Import List NArith ZArith Bool Permutation Sorted.
 From K.Model Require Import C22.
-From K.Proof Require Rendezvous C22.
+From K.Proof Require C22.
 Import ListNotations.
 
-Theorem C22_placeholder_sorted : forall (key T : Type) (ltb : T -> T -> bool) (score : node -> key -> T) ns k,
-  Permutation (ordered ltb score ns k) ns.
-Proof. exact Proof.Rendezvous.ordered_perm. Qed.
+(* "the ordered node list is the set of nodes sorted by descending score": unconditionally a
+   permutation of the node slice in which no node scores below a later one ... *)
+Theorem C22_sorted_desc : forall (key T : Type) (ltb : T -> T -> bool) (score : node -> key -> T),
+  strict_total ltb -> forall ns k,
+  Permutation (ordered ltb score ns k) ns /\ StronglySorted (ge ltb score k) (ordered ltb score ns k).
+Proof. exact Proof.C22.sorted_desc. Qed.
+Print Assumptions C22_sorted_desc.
+
+(* ... strictly descending when the scores are distinct (doc of GetOrderedNodes: score(N1) > score(N2) > ...) *)
+Theorem C22_sorted_desc_strict : forall (key T : Type) (ltb : T -> T -> bool) (score : node -> key -> T),
+  strict_total ltb -> forall ns k,
+  NoDup ns -> tie_free score k ns -> StronglySorted (gt ltb score k) (ordered ltb score ns k).
+Proof. exact Proof.C22.sorted_desc_strict. Qed.
+Print Assumptions C22_sorted_desc_strict.
+
+(* sort.Sort is only specified as "a permutation sorted w.r.t. Less": ANY such result is the
+   model's list, so the theorems below speak about the implementation's sort, not only about
+   the model's insertion sort *)
+Theorem C22_any_correct_sort : forall (key T : Type) (ltb : T -> T -> bool) (score : node -> key -> T),
+  strict_total ltb -> forall ns k l,
+  NoDup ns -> tie_free score k ns ->
+  Permutation l ns -> StronglySorted (ge ltb score k) l -> l = ordered ltb score ns k.
+Proof. exact Proof.C22.any_correct_sort. Qed.
+Print Assumptions C22_any_correct_sort.
+
+(* "does not depend on the order nodes were added" *)
+Theorem C22_insertion_independent : forall (key T : Type) (ltb : T -> T -> bool) (score : node -> key -> T),
+  strict_total ltb -> forall ns ns' k,
+  NoDup ns -> tie_free score k ns -> Permutation ns ns' ->
+  ordered ltb score ns k = ordered ltb score ns' k.
+Proof. exact Proof.C22.insertion_independent. Qed.
+Print Assumptions C22_insertion_independent.
+
+(* the same for whole AddNode/RemoveNode histories that end with the same node set *)
+Theorem C22_history_independent : forall (key T : Type) (ltb : T -> T -> bool) (score : node -> key -> T),
+  strict_total ltb -> forall ops1 ops2 k,
+  NoDup (rh_run ops1) -> tie_free score k (rh_run ops1) -> Permutation (rh_run ops1) (rh_run ops2) ->
+  ordered ltb score (rh_run ops1) k = ordered ltb score (rh_run ops2) k.
+Proof. exact Proof.C22.history_independent. Qed.
+Print Assumptions C22_history_independent.
+
+(* "removing a node only removes it from each key's list": the new list is the old one with
+   that node filtered out, every other node in its old relative order *)
+Theorem C22_remove_only_removes : forall (key T : Type) (ltb : T -> T -> bool) (score : node -> key -> T),
+  strict_total ltb -> forall ns k l,
+  NoDup (map label ns) -> tie_free score k ns ->
+  ordered ltb score (remove_node l ns) k = remove_node l (ordered ltb score ns k) /\
+  remove_node l (ordered ltb score ns k) = filter (fun x => negb (N.eqb (label x) l)) (ordered ltb score ns k).
+Proof. exact Proof.C22.remove_only_removes. Qed.
+Print Assumptions C22_remove_only_removes.
+
+(* "adding one only inserts it": the old list is split in two and the new node put between *)
+Theorem C22_add_only_inserts : forall (key T : Type) (ltb : T -> T -> bool) (score : node -> key -> T),
+  strict_total ltb -> forall ns k n,
+  ~ In (label n) (map label ns) -> NoDup (map label ns) -> tie_free score k (add_node n ns) ->
+  exists l1 l2, ordered ltb score ns k = l1 ++ l2 /\ ordered ltb score (add_node n ns) k = l1 ++ n :: l2.
+Proof. exact Proof.C22.add_only_inserts. Qed.
+Print Assumptions C22_add_only_inserts.
+
+Theorem C22_add_then_remove : forall (key T : Type) (ltb : T -> T -> bool) (score : node -> key -> T),
+  strict_total ltb -> forall ns k n,
+  ~ In (label n) (map label ns) -> NoDup (map label ns) -> tie_free score k (add_node n ns) ->
+  remove_node (label n) (ordered ltb score (add_node n ns) k) = ordered ltb score ns k.
+Proof. exact Proof.C22.add_then_remove. Qed.
+Print Assumptions C22_add_then_remove.
+
+(* GetOrderedNodes(key, n) is the n-prefix; "number of returned nodes = min(n, len(nodes))" *)
+Theorem C22_top_n : forall (key T : Type) (ltb : T -> T -> bool) (score : node -> key -> T) ns k n,
+  get_ordered_nodes ltb score ns k n = firstn n (ordered ltb score ns k) /\
+  length (get_ordered_nodes ltb score ns k n) = Nat.min n (length ns).
+Proof. exact Proof.C22.top_n. Qed.
+Print Assumptions C22_top_n.
+
+(* the drivers' boolean tie test is exactly the hypothesis above *)
+Theorem C22_tie_test_is_hypothesis : forall (key T : Type) (ltb : T -> T -> bool) (score : node -> key -> T),
+  strict_total ltb -> forall k ns,
+  tie_freeb ltb score k ns = true <-> NoDup ns /\ tie_free score k ns.
+Proof. exact Proof.C22.tie_freeb_iff. Qed.
+Print Assumptions C22_tie_test_is_hypothesis.
+
+(* ---- executable form, on the instance run against the implementation (scores in N) ---- *)
+Theorem C22_order_instance : strict_total N.ltb.
+Proof. exact Proof.C22.N_strict_total. Qed.
+Print Assumptions C22_order_instance.
+
+(* the model's observation satisfies the oracle ... *)
+Theorem C22_check_sound : forall hexkey U U' topn xs r,
+  dom U U' xs = true -> (hexkey = true -> C22_tie_free U r = true) ->
+  C22_check hexkey U U' topn xs r (observe U U' topn xs r) = true.
+Proof. exact Proof.C22.check_sound. Qed.
+Print Assumptions C22_check_sound.
+
+(* ... and with distinct scores nothing else does: an implementation observation accepted by the
+   oracle is the model's, entry for entry *)
+Theorem C22_check_complete : forall U U' topn xs r,
+  dom U U' xs = true -> C22_tie_free U r = true ->
+  forall o, C22_check true U U' topn xs r o = true -> o = observe U U' topn xs r.
+Proof. exact Proof.C22.check_complete. Qed.
+Print Assumptions C22_check_complete.
+
+(* outside its domain (duplicate labels, x not a member) the oracle says nothing *)
+Theorem C22_check_outside_domain : forall hexkey U U' topn xs r o,
+  dom U U' xs = false -> C22_check hexkey U U' topn xs r o = true.
+Proof. exact Proof.C22.check_outside_dom. Qed.
+Print Assumptions C22_check_outside_domain.
+
+(* ---- where the statement fails ---- *)
+
+(* With tied scores the order DOES depend on the insertion order: two nodes of weight 0 score
+   (+0) on every key.  Witness = harness seed "seed-zero-weight-tie" (known finding
+   C22-zero-weight-tie). *)
+Theorem C22_ties_refuted :
+  exists ns ns' r, NoDup (map label ns) /\ Permutation ns ns' /\ ord ns r <> ord ns' r.
+Proof. exact Proof.C22.ties_refuted. Qed.
+Print Assumptions C22_ties_refuted.
+
+(* what hrw.RendezvousHash returned on that seed (nodes a,b of weight 0, key "00"): [a;b] when
+   inserted a,b and [b;a] when inserted b,a — the oracle rejects it *)
+Example C22_zero_weight_observed_violates :
+  C22_check true [Proof.C22.w0a; Proof.C22.w0b] [Proof.C22.w0b; Proof.C22.w0a] 1 [0; 1]%N Proof.C22.tie_row
+    (mkobs [0; 1]%N [1; 0]%N [0]%N [(0, [1], [1; 0]); (1, [0], [0; 1])]%N) = false.
+Proof. vm_compute. reflexivity. Qed.
+
+(* keys that are not even-length hex make every Score NaN: `<` is constantly false and the
+   result is the insertion order itself; such keys are outside the property's domain *)
+Theorem C22_nan_key_note : forall (key T : Type) (score : node -> key -> T) ns k,
+  ordered (fun _ _ => false) score ns k = ns.
+Proof. exact Proof.C22.nan_keys_keep_insertion_order. Qed.
+Print Assumptions C22_nan_key_note.
+
+(* ---- the proposed repair (fixes/C22_tiebreak.patch): compare (score, label) ---- *)
+Theorem C22_tiebreak_order : forall (T : Type) (ltb : T -> T -> bool),
+  strict_total ltb -> strict_total (lex_ltb ltb).
+Proof. exact Proof.C22.lex_strict_total. Qed.
+Print Assumptions C22_tiebreak_order.
+
+(* no hypothesis on the scores is left: distinct labels suffice *)
+Theorem C22_tiebreak_insertion_independent : forall (key T : Type) (ltb : T -> T -> bool) (score : node -> key -> T),
+  strict_total ltb -> forall ns ns' k,
+  NoDup (map label ns) -> Permutation ns ns' ->
+  ordered (lex_ltb ltb) (lex_score score) ns k = ordered (lex_ltb ltb) (lex_score score) ns' k.
+Proof. exact Proof.C22.tiebreak_insertion_independent. Qed.
+Print Assumptions C22_tiebreak_insertion_independent.
+
+(* and nothing changes where the scores were distinct already *)
+Theorem C22_tiebreak_conservative : forall (key T : Type) (ltb : T -> T -> bool) (score : node -> key -> T),
+  strict_total ltb -> forall ns k,
+  NoDup ns -> tie_free score k ns ->
+  ordered (lex_ltb ltb) (lex_score score) ns k = ordered ltb score ns k.
+Proof. exact Proof.C22.tiebreak_refines. Qed.
+Print Assumptions C22_tiebreak_conservative.
+
+(* ---- non-vacuity ---- *)
+(* three nodes with distinct scores: the hypotheses hold, the list is a genuine reordering, a
+   removal and a re-addition behave as stated, and the oracle accepts exactly this *)
+Example C22_nonvacuous :
+  let U := [mknode 0 100; mknode 1 100; mknode 2 7] in
+  let U' := [mknode 2 7; mknode 0 100; mknode 1 100] in
+  let r := [5; 9; 7]%N in
+  dom U U' [0; 1; 2]%N = true /\ C22_tie_free U r = true /\
+  lab (ord U r) = [1; 2; 0]%N /\ lab (ord U' r) = [1; 2; 0]%N /\
+  lab (ord (remove_node 2 U) r) = [1; 0]%N /\
+  lab (ord (add_node (mknode 2 7) (remove_node 2 U)) r) = [1; 2; 0]%N /\
+  C22_check true U U' 2 [0; 1; 2]%N r (observe U U' 2 [0; 1; 2]%N r) = true.
+Proof. vm_compute. repeat split; reflexivity. Qed.
+
+(* the history form: two different AddNode/RemoveNode histories ending in the same node set *)
+Example C22_nonvacuous_history :
+  let a := mknode 0 100 in let b := mknode 1 100 in let c := mknode 2 7 in
+  rh_run [RAdd a; RAdd b; RAdd c] = [a; b; c] /\
+  rh_run [RAdd c; RAdd a; RRemove 2; RAdd b; RAdd c] = [a; b; c] /\
+  rh_run [RAdd c; RAdd b; RAdd a] = [c; b; a].
+Proof. vm_compute. repeat split; reflexivity. Qed.
